@@ -202,7 +202,7 @@ func (s *Subscription) Loaded(resourceSub *rescache.ResourceSubscription, err er
 		s.resourceSub = resourceSub
 		s.typ = resourceSub.GetResourceType()
 		s.state = stateLoaded
-		verifNote("subLoaded", "cid", s.c.CID(), "rid", s.rid)
+		verifNote("subLoaded", "cid", s.c.CID(), "rid", s.rid, "sp", s)
 
 		s.setResource()
 		if s.err != nil {
@@ -296,12 +296,12 @@ func (s *Subscription) ReleaseRPCResources() {
 
 func (s *Subscription) queueEvents(reason uint8) {
 	s.queueFlag |= reason
-	verifNote("subQueue", "cid", s.c.CID(), "rid", s.rid, "reason", int(reason), "qf", int(s.queueFlag))
+	verifNote("subQueue", "cid", s.c.CID(), "rid", s.rid, "sp", s, "reason", int(reason), "qf", int(s.queueFlag))
 }
 
 func (s *Subscription) unqueueEvents(reason uint8) {
 	s.queueFlag &= ^reason
-	verifNote("subUnqueue", "cid", s.c.CID(), "rid", s.rid, "reason", int(reason), "qf", int(s.queueFlag), "rflag", s.flags&flagReaccess != 0, "qlen", len(s.eventQueue))
+	verifNote("subUnqueue", "cid", s.c.CID(), "rid", s.rid, "sp", s, "reason", int(reason), "qf", int(s.queueFlag), "rflag", s.flags&flagReaccess != 0, "qlen", len(s.eventQueue))
 	if s.queueFlag != 0 {
 		return
 	}
@@ -559,23 +559,23 @@ func (s *Subscription) Event(event *rescache.ResourceEvent) {
 
 		// Discard any event prior to resourceSubscription being loaded or disposed
 		if s.resourceSub == nil {
-			verifNote("subEvent", "cid", s.c.CID(), "rid", s.rid, "ev", event.Event, "evp", event, "path", "discard", "qf", int(s.queueFlag), "qlen", len(s.eventQueue))
+			verifNote("subEvent", "cid", s.c.CID(), "rid", s.rid, "sp", s, "ev", event.Event, "evp", event, "path", "discard", "qf", int(s.queueFlag), "qlen", len(s.eventQueue))
 			return
 		}
 
 		if s.queueFlag != 0 {
 			s.eventQueue = append(s.eventQueue, event)
-			verifNote("subEvent", "cid", s.c.CID(), "rid", s.rid, "ev", event.Event, "evp", event, "path", "queued", "qf", int(s.queueFlag), "qlen", len(s.eventQueue))
+			verifNote("subEvent", "cid", s.c.CID(), "rid", s.rid, "sp", s, "ev", event.Event, "evp", event, "path", "queued", "qf", int(s.queueFlag), "qlen", len(s.eventQueue))
 			return
 		}
 
-		verifNote("subEvent", "cid", s.c.CID(), "rid", s.rid, "ev", event.Event, "evp", event, "path", "process", "qf", int(s.queueFlag), "qlen", len(s.eventQueue))
+		verifNote("subEvent", "cid", s.c.CID(), "rid", s.rid, "sp", s, "ev", event.Event, "evp", event, "path", "process", "qf", int(s.queueFlag), "qlen", len(s.eventQueue))
 		s.processEvent(event)
 	})
 }
 
 func (s *Subscription) processEvent(event *rescache.ResourceEvent) {
-	verifNote("subProc", "cid", s.c.CID(), "rid", s.rid, "ev", event.Event, "evp", event, "ver", int(s.version), "evver", int(event.Version), "qf", int(s.queueFlag), "qlen", len(s.eventQueue))
+	verifNote("subProc", "cid", s.c.CID(), "rid", s.rid, "sp", s, "ev", event.Event, "evp", event, "ver", int(s.version), "evver", int(event.Version), "qf", int(s.queueFlag), "qlen", len(s.eventQueue))
 	// Discard events targeting a different internal version
 	if s.version != event.Version {
 		return
@@ -763,7 +763,7 @@ func (s *Subscription) processModelEvent(event *rescache.ResourceEvent) {
 }
 
 func (s *Subscription) handleReaccess(t *rescache.Throttle) {
-	verifNote("reaccess", "cid", s.c.CID(), "rid", s.rid, "direct", s.direct)
+	verifNote("reaccess", "cid", s.c.CID(), "rid", s.rid, "sp", s, "direct", s.direct)
 	s.access = nil
 	s.flags &= ^flagReaccess
 
@@ -808,7 +808,7 @@ func (s *Subscription) Dispose() {
 		return
 	}
 
-	verifNote("dispose", "cid", s.c.CID(), "rid", s.rid, "ready", len(s.readyCallbacks), "access", len(s.accessCallbacks), "called", s.flags&flagAccessCalled != 0)
+	verifNote("dispose", "cid", s.c.CID(), "rid", s.rid, "sp", s, "ready", len(s.readyCallbacks), "access", len(s.accessCallbacks), "called", s.flags&flagAccessCalled != 0)
 	state := s.state
 	s.state = stateDisposed
 	s.readyCallbacks = nil
@@ -867,7 +867,7 @@ func (s *Subscription) reaccess(t *rescache.Throttle) {
 	}
 
 	if s.queueFlag != 0 {
-		verifNote("reaccessDeferred", "cid", s.c.CID(), "rid", s.rid, "direct", s.direct)
+		verifNote("reaccessDeferred", "cid", s.c.CID(), "rid", s.rid, "sp", s, "direct", s.direct)
 		s.flags |= flagReaccess
 		// The cached access is no longer valid. Requests made before the
 		// deferred reaccess is handled must ask the service again.
